@@ -39,6 +39,8 @@ impl<T: DatabaseConnection> DatabaseManager for T {
 
     /// Generic method to store data into the database.
     fn store_data<P: Params>(&self, query: &str, params: P) -> Result<(), Error> {
+        #[cfg(feature = "verif")]
+        crate::verif::crash_point("store_data");
         match self.get_connection().execute(query, params) {
             Ok(_) => Ok(()),
             Err(e) => match e {
@@ -57,6 +59,8 @@ impl<T: DatabaseConnection> DatabaseManager for T {
 
     /// Generic method to remove data from the database.
     fn remove_data<P: Params>(&self, query: &str, params: P) -> Result<(), Error> {
+        #[cfg(feature = "verif")]
+        crate::verif::crash_point("remove_or_update_data");
         match self.get_connection().execute(query, params).unwrap() {
             0 => Err(Error::NotFound),
             _ => Ok(()),
